@@ -125,6 +125,8 @@ class CRef:
             return (t, v)
         if k == "call":
             return self.call(e[1], [self.ev(a, env) for a in e[2]])
+        if k == "ext":
+            return (("ext", e[1]), 0)          # bundle / register operand / enum: passed through, never evaluated
         raise ValueError(e)
 
     def static_type(self, e, env):
@@ -159,7 +161,7 @@ class CRef:
         params = f["params"]
         if len(params) != len(argvals):
             raise ValueError("arity")
-        conv = [self.conv(a, pt, "arg") for a, (pt, _) in zip(argvals, params)]
+        conv = [a if pt[0] == "ext" else self.conv(a, pt, "arg") for a, (pt, _) in zip(argvals, params)]
         if "native" in f:
             r = f["native"](*[bits(v, t) for t, v in conv])
             return (f["ret"], wrap(r, f["ret"]))
@@ -172,6 +174,8 @@ class CRef:
                 st, v = tv
                 return (f["ret"], wrap(bits(v, st), f["ret"]))     # zero-extended to 64 bit, then cut to the return type
             return self.conv(tv, f["ret"], "return")
+        if f["ret"] is None:
+            return (("s", 32), 0)           # void: no value
         raise ValueError(f"{name} fell off its end without return")
 
     def run(self, stmts, env):
@@ -196,6 +200,16 @@ class CRef:
                 while env[s[1]][1] < s[2]:
                     self.run(s[3], env)
                     env[s[1]] = (("u", 32), wrap(env[s[1]][1] + 1, ("u", 32)))
+            elif k == "forc":
+                # for (i = 0; <cond>; i++) { body }
+                env[s[1]] = (("u", 32), 0)
+                n = 0
+                while self.ev(s[2], env)[1] != 0:
+                    self.run(s[3], env)
+                    env[s[1]] = (("u", 32), wrap(env[s[1]][1] + 1, ("u", 32)))
+                    n += 1
+                    if n > 64:
+                        raise RuntimeError("loop bound")
             elif k == "return":
                 raise Return(self.ev(s[1], env))
             elif k == "expr":
@@ -207,6 +221,8 @@ class CRef:
 # ------------------------------------------------------------------ printing as shortcode-dialect C
 
 def show_type(t):
+    if t is None:
+        return "void"
     return NAMES[t]
 
 
@@ -240,6 +256,8 @@ def show_expr(e) -> str:
         return e[1] + ("++" if e[2] > 0 else "--")
     if k == "call":
         return f"{e[1]}({', '.join(show_expr(a) for a in e[2])})"
+    if k == "ext":
+        return e[1]
     raise ValueError(e)
 
 
@@ -260,6 +278,8 @@ def show_stmts(stmts) -> str:
             out.append(t)
         elif k == "for":
             out.append(f"for ({s[1]} = 0; {s[1]} < {s[2]}; {s[1]}++) {{ " + show_stmts(s[3]) + " }")
+        elif k == "forc":
+            out.append(f"for ({s[1]} = 0; {show_expr(s[2])}; {s[1]}++) {{ " + show_stmts(s[3]) + " }")
         elif k == "return":
             out.append(f"return {show_expr(s[1])};")
         elif k == "expr":
